@@ -54,3 +54,32 @@ def positions_contract(interp, self):
     pos, T, N = self.get('_pos'), self.get('_T'), self.get('_N')
     interp.ctx.use('contract of Trajectory.positions: shape (T,N,3), every value in [0,1) (discharged in C01)')
     return STensor((T, N, 3), lambda t, a, c: pos(to_z3(t), to_z3(a), to_z3(c)), 'real')
+
+
+def traj_object(ctx, mode='positions', name='tr'):
+    """A gemdat Trajectory object with its real attribute layout (pymatgen base class), in the given representation:
+    'positions'  -> coords = x (arbitrary reals, as given by the user, not yet wrapped), base_positions = coords[0]
+    'displacements' -> coords = d (arbitrary reals), base_positions = bp."""
+    T, N = z3.Int(f'{name}_T'), z3.Int(f'{name}_N')
+    dt = z3.Real(f'{name}_time_step')
+    ctx.assume(z3.And(T >= 1, N >= 1, dt > 0))
+    x = z3.Function(f'{name}_coords', z3.IntSort(), z3.IntSort(), z3.IntSort(), z3.RealSort())
+    bp = z3.Function(f'{name}_base', z3.IntSort(), z3.IntSort(), z3.RealSort())
+    lat = W.sym_lattice(ctx, name + '_lat')
+    ctx.ghost['lattice_obj'] = lat
+    coords = STensor((T, N, 3), lambda t, a, c: x(to_z3(t), to_z3(a), to_z3(c)), 'real')
+    if mode == 'positions':
+        base = STensor((N, 3), lambda a, c: x(z3.IntVal(0), to_z3(a), to_z3(c)), 'real')
+    else:
+        base = STensor((N, 3), lambda a, c: bp(to_z3(a), to_z3(c)), 'real')
+    sym = z3.Function(f'{name}_symbol', z3.IntSort(), z3.IntSort())
+    species = SSeq(N, lambda k: SObj('Element', symbol=SObj('Symbol', code=sym(to_z3(k))), _k=k, __isa__=('Element', 'Species')))
+    tr = SObj('Trajectory', coords=coords, coords_are_displacement=(mode != 'positions'), base_positions=base,
+              lattice=lat.get('matrix'), constant_lattice=True, species=species, time_step=dt, metadata={'temperature': z3.Real('temperature')},
+              site_properties=None, frame_properties=None, charge=None, spin_multiplicity=None, _lat=lat)
+    return tr, {'T': T, 'N': N, 'dt': dt, 'x': x, 'bp': bp, 'lat': lat, 'mode': mode, 'sym': sym, 'tr': tr}
+
+
+def frac(v):
+    """v mod 1 in real arithmetic."""
+    return v - z3.ToReal(z3.ToInt(v))
